@@ -196,6 +196,10 @@ def handle (op : String) (args : List String) : Option String :=
         let r1 := postArray da ps params outs 0 xs fs
         let r := postArray da ps params outs 0 r1.1 r1.2
         some (J.arr r.1, r.2)
+      | "mx", params, .obj kvs =>
+        -- the record content_preserved_mapped promises (refused keys unchanged, legal keys:
+        -- every file leaf replaced by expectVal judged in the initial file system)
+        some (J.obj (expectedMapped fs params outs kvs), fs)
       | "m", params, .obj kvs =>
         let r := postMapCur da ps params outs kvs fs
         some (J.obj r.1, r.2)
@@ -259,6 +263,18 @@ def handle (op : String) (args : List String) : Option String :=
     -- StructMember.GetOutFilename for a member / map entry / array element `id` of type `ty`
     let ty ← runP pTy ty
     pure (strHex (outFilename ty (← hexStr id) (← hexStr on)))
+  | "hypm", [ps, outs, params, value, fs] => do
+    -- the hypotheses of content_preserved_mapped on one input of the mapped-keys stream
+    let ps := pathOf (← hexStr ps)
+    let outs := pathOf (← hexStr outs)
+    let params ← runP pParams params
+    let v ← runP pJ value
+    let fs ← runP pFS fs
+    let kvs := match v with | .obj kvs => kvs | _ => []
+    let ls := leavesMap params outs (legalForks kvs)
+    let keys := kvs.map Prod.fst
+    pure ("wf=" ++ boolStr (wfParams params) ++ " nodup=" ++ boolStr (keys.eraseDups.length == keys.length) ++
+      " clean=" ++ boolStr (cleanB ps outs fs ls) ++ " leaves=" ++ toString ls.length)
   | "wcut", [w, old, new, k] => do
     -- a record write cut after `k` units of progress: `a` = writeAtomicAt (temp file, rename),
     -- `i` = os.WriteFile in place; old = `N` (no record yet) | `S<hex>`; reply: record and `.tmp` sibling
